@@ -1,1 +1,48 @@
-//! Canonical text for scalars (filled in per property).
+//! Canonical scalar / matrix text shared by the property bins.
+//!
+//!  * integers: decimal;  `Ratio`: raw `numer/denom` (so a missing `reduce()` is visible);
+//!  * `FF<p>`: the raw representative;  `FF2`: `0`/`1`;  `QuadInt`: `a,b` (for a + bω).
+//!  * dense matrix: `m n e11 e12 … emn` (row-major).
+
+use num_bigint::BigInt;
+use yui::{EisenInt, GaussInt, QuadInt, Ratio, FF, FF2};
+use yui_matrix::dense::{Mat, MatTrait};
+use yui_matrix::sparse::SpMat;
+
+pub trait Txt {
+    fn txt(&self) -> String;
+}
+
+macro_rules! impl_txt_int { ($($t:ty),*) => { $(impl Txt for $t { fn txt(&self) -> String { self.to_string() } })* } }
+impl_txt_int!(i32, i64, i128, BigInt, usize);
+
+impl<T: Txt> Txt for Ratio<T> {
+    fn txt(&self) -> String { format!("{}/{}", self.numer().txt(), self.denom().txt()) }
+}
+impl<const P: i32> Txt for FF<P> {
+    fn txt(&self) -> String { self.rep().to_string() }
+}
+impl Txt for FF2 {
+    fn txt(&self) -> String { self.to_string() }
+}
+impl<T: Txt + yui::Integer, const D: i32> Txt for QuadInt<T, D>
+where for<'x> &'x T: yui::IntOps<T> {
+    fn txt(&self) -> String { format!("{},{}", self.left().txt(), self.right().txt()) }
+}
+
+pub fn mat_txt<R: Txt>(m: &Mat<R>) -> String {
+    let (r, c) = m.shape();
+    let mut s = format!("{} {}", r, c);
+    for i in 0..r { for j in 0..c { s.push(' '); s.push_str(&m[(i, j)].txt()); } }
+    s
+}
+
+pub fn spmat_txt<R: Txt + Clone + num_traits::Zero>(m: &SpMat<R>) -> String
+where R: yui::Ring, for<'x> &'x R: yui::RingOps<R> {
+    mat_txt(&m.clone().into_dense())
+}
+
+pub fn big(s: &str) -> BigInt { s.parse().unwrap() }
+
+#[allow(dead_code)]
+fn _types(_: GaussInt<i64>, _: EisenInt<i64>) {}
